@@ -24,8 +24,9 @@ impl Instant {
     fn checked_add(&self, duration: Duration) -> (r: Option<Instant>)
         ensures r is Some <==> self.t() + duration.d() <= instant_max(), r is Some ==> r->Some_0.t() == self.t() + duration.d()
     { unimplemented!() }
+    // ASSUMED (listed): a reading of the clock is at least an hour away from the end of the representable time
     #[verifier::external_body]
-    fn now() -> (r: Instant) { unimplemented!() }
+    fn now() -> (r: Instant) ensures r.t() + 3_600_000_000_000 <= instant_max() { unimplemented!() }
     #[verifier::external_body]
     fn checked_duration_since(&self, earlier: Instant) -> (r: Option<Duration>)
         ensures r is Some <==> self.t() >= earlier.t(), r is Some ==> r->Some_0.d() == self.t() - earlier.t()
@@ -112,4 +113,25 @@ impl vstd::std_specs::cmp::PartialOrdSpecImpl for Duration {
     open spec fn partial_cmp_spec(&self, other: &Self) -> Option<Ordering> {
         if self.d() < other.d() { Some(Ordering::Less) } else if self.d() == other.d() { Some(Ordering::Equal) } else { Some(Ordering::Greater) }
     }
+}
+// `Duration * u32` panics in std when the product is not representable (its precondition here, `mul_req`); `saturating_mul` is the
+// total version. The largest representable duration is an uninterpreted bound.
+pub uninterp spec fn hq_dur_max() -> nat;
+impl Duration {
+    #[verifier::external_body]
+    fn saturating_mul(self, rhs: u32) -> (r: Duration)
+        ensures r.d() as int == (if self.d() * rhs <= hq_dur_max() { self.d() * rhs } else { hq_dur_max() as int })
+    { unimplemented!() }
+}
+impl std::ops::Mul<u32> for Duration {
+    type Output = Duration;
+    #[verifier::external_body]
+    fn mul(self, rhs: u32) -> (r: Duration)
+        ensures r.d() == self.d() * rhs
+    { unimplemented!() }
+}
+impl vstd::std_specs::ops::MulSpecImpl<u32> for Duration {
+    open spec fn obeys_mul_spec() -> bool { false }
+    open spec fn mul_req(self, rhs: u32) -> bool { self.d() * rhs <= hq_dur_max() }
+    uninterp spec fn mul_spec(self, rhs: u32) -> Duration;
 }
